@@ -253,6 +253,15 @@ def proof_gate(pid):
                 res['discharged'] += 1
             else:
                 res['problems'].append(f'{t} depends on axioms {sorted(axioms - ALLOWED_AXIOMS)}')
+    if CURRENT_TIER[0] == 'thorough':
+        # independent re-check of the compiled property module and everything it depends on
+        proc = subprocess.run(['bash', '-c', f'cd {COQ} && timeout 1800 coqchk -silent -o -Q theories Dznpy Dznpy.Properties.{pid}'],
+                              stdout=subprocess.PIPE, stderr=subprocess.STDOUT)
+        out = proc.stdout.decode()
+        m = re.search(r'\* Axioms:\s*(.*?)\n\s*\n', out, re.S)
+        res['coqchk'] = {'rc': proc.returncode, 'axioms': (m.group(1).strip() if m else '?')}
+        if proc.returncode != 0 or not m or m.group(1).strip() != '<none>':
+            res['problems'].append('coqchk does not accept the property module or reports axioms: ' + out[-800:])
     return res
 
 
@@ -308,6 +317,7 @@ class Report:
             'trusted_base': trusted,
             'theorems': gate['theorems'],
             'print_assumptions': gate['assumptions'],
+            'coqchk': gate.get('coqchk', 'not run in the quick tier'),
             'evaluations': self.evaluations,
             'distinct_nontrivial': len(self.distinct),
             'rule': rule,
@@ -335,7 +345,11 @@ def load_known():
     return json.load(open(p)) if os.path.exists(p) else {'known': [], 'fixed': []}
 
 
+CURRENT_TIER = ['quick']
+
+
 def tier_seed(argv):
     tier = argv[2] if len(argv) > 2 and argv[2] in ('quick', 'thorough') else os.environ.get('VERIF_TIER', 'quick')
+    CURRENT_TIER[0] = tier
     seed = int(os.environ.get('VERIF_SEED', '20260930'))
     return tier, seed
